@@ -2,7 +2,8 @@
 # run_seeds.sh [tier]: apply every kept seeded change to /repo in turn, run the quick check of the
 # property it breaks, undo it, and record the outcome in selftest/seed_matrix.tsv
 set -u
-cd /verif
+V="${VERIF_DIR:-/verif}"; R="${REPO_DIR:-/repo}"
+cd "$V"
 TIER="${1:-quick}"
 out=selftest/seed_matrix.tsv
 printf "seed\tproperty\tdetected\tsignature\tseconds\tsummary\n" > $out
@@ -17,4 +18,4 @@ for d in seeded/*/; do
   printf "%s\t%s\t%s\t%s\t%s\t%s\n" "$s" "$id" "$det" "$sig" "$secs" "$sum" >> $out
   echo "$s $det $sig ${secs}s"
 done
-git -C /repo status --short | head -3
+git -C "$R" status --short | head -3
